@@ -940,6 +940,19 @@ def _final(it, v):
     return v
 
 
+def _some_fn_type(pe, ctx, label='earlier-type'):
+    """the type an already declared function carries: a function type whose parameter list is present or absent (`f()`), variadic or not -- left open, so that code
+    reading it is explored for each case, without enumerating the whole type catalogue for a field that can only hold a function type"""
+    ty = Obj('Type', lazy=True, label=label)
+    ty.fields['return_ty'] = _tyobj(pe.cg, label + '.return_ty', 'int')
+    ty.fields['params'] = View(Cell([0, Obj('Type', lazy=True, label=label + '.params')], ctx.fresh(label + '.params'), names={0: 'NULL'}))
+    ty.fields['is_variadic'] = _fresh_bool(ctx, label + '.is_variadic')
+    if 'TY_FUNC' in pe.E:
+        ty.fields['kind'] = pe.E['TY_FUNC']
+    ty.meta['cat'] = 'func'
+    return ty
+
+
 def r153_function(pe, rep):
     """is_root computation, monotonicity, and the recording context (current_fn) in function()"""
     u = pe.u
@@ -1007,6 +1020,7 @@ def r153_function(pe, rep):
                         o = Obj('Obj', lazy=True, label='earlier-declaration')
                         o.fields.update(old)
                         o.fields['is_function'] = 1
+                        o.fields.setdefault('ty', _some_fn_type(pe, ctx))
                         ctx.c15_old = o
                     # a definition is parsed at file scope (no enclosing function); a prototype may also stand inside a function body
                     ctx.c15_cf0 = 0 if isdef else Obj('Obj', lazy=True, label='enclosing-function')
@@ -1122,24 +1136,30 @@ def _fn_stepper(pe):
             return Obj('Node', lazy=True, label='body')
         its[isdef] = pe.interp(('function', 'new_gvar', 'new_var'), opaque=('create_param_lvars', 'resolve_goto_labels'),
                                cut={'find_func': h_find, 'equal': h_equal, 'consume': h_consume, 'declarator': h_decl, 'compound_stmt': h_body},
-                               globals_={'current_fn': 0})
+                               globals_={'current_fn': lambda ctx: ctx.c15_cf0, 'scope': lambda ctx: ctx.c15_scope})
         return its[isdef]
     cache = {}
 
-    def step(state, attr, isdef):
-        """state: None (no earlier declaration) or a tuple of (field, int) pairs; returns the list of states after function() (one per returning path), or None"""
-        key = (state, tuple(sorted(attr.items())), isdef)
+    def step(state, attr, isdef, block=0):
+        """state: None (no earlier declaration) or a tuple of (field, int) pairs; block: the declaration stands inside a function body (the scope chain has an
+        enclosing scope and current_fn designates the enclosing function) instead of at file scope; returns the list of states after function() (one per returning
+        path), or None"""
+        key = (state, tuple(sorted(attr.items())), isdef, block)
         if key in cache:
             return cache[key]
         it = interp_for(isdef)
 
         def mk(ctx):
             ctx.c15_tok = Obj('Token', lazy=True, label='tok')
+            ctx.c15_scope = Obj('Scope', lazy=True, label='scope')
+            ctx.c15_scope.fields['next'] = Obj('Scope', lazy=True, label='enclosing-scope') if block else 0
+            ctx.c15_cf0 = Obj('Obj', lazy=True, label='enclosing-function') if block else 0
             if state is None:
                 ctx.c15_old = 0
             else:
                 o = Obj('Obj', lazy=True, label='earlier-declaration')
                 o.fields.update(dict(state))
+                o.fields.setdefault('ty', _some_fn_type(pe, ctx))
                 ctx.c15_old = o
             a = Obj('VarAttr', lazy=True, label='attr')
             a.fields.update(attr)
@@ -1160,7 +1180,9 @@ def _fn_stepper(pe):
                     v = int(v)
                 if isinstance(v, int) and k not in ('next',) and (k.startswith('is_') or v in (0, 1)):
                     st[k] = v
-            outs.append(tuple(sorted(st.items())))
+            st = tuple(sorted(st.items()))
+            if st not in outs:
+                outs.append(st)
         cache[key] = outs
         return outs
     pe.c15_step = (ATTRS, step)
@@ -1270,6 +1292,82 @@ def r158_sequences(pe, rep):
             lk.note('linkage/declaration-sequence/definition-flag', isd == int(any(d for a, d in seq)), 'after `%s` is_definition is %r' % (desc, isd), fline, facts)
     if n < 100:
         lk.undecided('linkage/declaration-sequence/evaluation', 'function() could be evaluated on %d declaration sequences only' % n, fline)
+    lk.flush(fline)
+
+
+def r158_block_sequences(pe, rep):
+    """function() applied to declaration sequences in which a declaration of an already declared function stands inside a function body (`int g(void){ int f(void); .. }`).
+    Oracle (C11 6.7.4p7): whether a definition is an inline definition is decided by the FILE-SCOPE declarations alone; the linkage (6.2.2p4/p5) by the first declaration.
+    A block-scope declaration therefore leaves the classification of the sequence of file-scope declarations unchanged.  Sequences whose first declaration stands
+    in a block are not judged (no earlier Obj; gcc and clang disagree), nor is `static` in a block (6.7.1p7: constraint violation)."""
+    u = pe.u
+    fline = u.fn('function').line
+    lk = Agg(rep, 'R15.8', PU, 'function')
+    ATTRS, step = _fn_stepper(pe)
+    BATTRS = [a for a in ATTRS if not a['is_static']]
+    seqs = []
+    for a1 in ATTRS:
+        for d1 in (0, 1):
+            for b in BATTRS:
+                seqs.append(((a1, d1, 0), (b, 0, 1)))
+                for a3 in ATTRS:
+                    for d3 in ((0, 1) if not d1 else (0,)):
+                        seqs.append(((a1, d1, 0), (b, 0, 1), (a3, d3, 0)))
+                        seqs.append(((a1, d1, 0), (a3, d3, 0), (b, 0, 1)))
+    n = 0
+    for seq in seqs:
+        attrs = [a for a, d, blk in seq if not blk]          # the file-scope declarations
+        if attrs[0]['is_static']:
+            want, cls = 1, 'static-first'
+        elif any(a['is_static'] for a in attrs[1:]):
+            continue
+        elif all(a['is_inline'] and not a['is_extern'] for a in attrs):
+            want, cls = 1, 'every-file-scope-declaration-inline'
+        elif attrs[0]['is_inline'] and not attrs[0]['is_extern']:
+            want, cls = 0, 'inline-then-external-declaration'
+        else:
+            want, cls = 0, 'external-first'
+        states = [None]
+        broken = False
+        for a, d, blk in seq:
+            nxt = []
+            for st in states:
+                r = step(st, a, d, blk)
+                if r is None:
+                    broken = True
+                    break
+                for x in r:
+                    if x not in nxt:
+                        nxt.append(x)
+            if broken:
+                break
+            states = nxt
+        desc = ' '.join(('int g(void){ %s }' if blk else '%s') % _decl_words(a, d) for a, d, blk in seq)
+        key = 'linkage/block-scope-redeclaration/' + cls
+        if broken:
+            lk.undecided(key, 'the Obj function() works on was not found for `%s`' % desc, fline)
+            continue
+        for st in states:          # no state: a declaration of the sequence is diagnosed
+            n += 1
+            fl = dict(st)
+            facts = {'declarations': desc, 'function object at the end': {k: v for k, v in fl.items() if k.startswith('is_')}}
+            stt, root, isd = fl.get('is_static'), fl.get('is_root'), fl.get('is_definition')
+            if not isinstance(stt, int):
+                lk.undecided(key, 'is_static is not concrete after `%s`' % desc, fline)
+                continue
+            if want == 0:
+                msg = ('after `%s` the function has is_static=%d: a file-scope declaration lacks `inline` or says `extern`, so the definition is an external definition (C11 6.7.4p7); '
+                       'it is emitted .local (and only if referenced) and other translation units that call it fail to link' % (desc, stt))
+            else:
+                msg = ('after `%s` the function has is_static=%d: %s; the declaration inside the function body does not count (C11 6.7.4p7 speaks of the file scope declarations only), '
+                       'but it turns the function into an external definition: the function is emitted .globl and two translation units doing this fail to link (multiple definition)'
+                       % (desc, stt, 'it has internal linkage (C11 6.2.2p4/p5)' if cls == 'static-first' else 'every file-scope declaration is `inline` without `extern`, so this is an inline definition that provides no external definition'))
+            lk.note(key, stt == want, msg, fline, facts)
+            if want == 0 and stt == 0:
+                lk.note('linkage/block-scope-redeclaration/external-definition-is-root', root == 1, 'after `%s` the function has external linkage but is not a liveness root: it is not emitted unless referenced' % desc, fline, facts)
+            lk.note('linkage/block-scope-redeclaration/definition-flag', isd == int(any(d for a, d, blk in seq)), 'after `%s` is_definition is %r' % (desc, isd), fline, facts)
+    if n < 100:
+        lk.undecided('linkage/block-scope-redeclaration/evaluation', 'function() could be evaluated on %d declaration sequences only' % n, fline)
     lk.flush(fline)
 
 
@@ -1772,6 +1870,7 @@ def r153(pe, rep):
     part(('function', 'new_gvar', 'find_func'), lambda: r153_function(pe, rep))
     part(('find_func',), lambda: r158_find_func(pe, rep))
     part(('function', 'new_gvar', 'find_func'), lambda: r158_sequences(pe, rep))
+    part(('function', 'new_gvar', 'find_func'), lambda: r158_block_sequences(pe, rep))
     keep = [o for o in rep.obs if o['key'] == 'R15.3:%s:function:is_root/redeclaration-keeps-root-mark' % PU]
     permanent = bool(keep) and all(o['verdict'] == 'holds' for o in keep)
     lk = [o for o in rep.obs if o['key'] in ('R15.3:%s:function:is_root/first-declaration' % PU, 'R15.3:%s:function:is_root/redeclaration' % PU)]
@@ -3020,6 +3119,196 @@ def r159(P, rep):
     ag.flush(fline)
 
 
+# =============================================================================================
+# R15.11 composite function type after a redeclaration
+# =============================================================================================
+PROTO_DOC = {'none': 'without a prototype (`double f();`)', 'proto': 'with a prototype (`double f(double);`)', 'variadic': 'with a variadic prototype (`double f(double, ...);`)'}
+
+
+def r1511(pe, rep):
+    """C11 6.2.7p3/p4: an identifier declared again in a scope where the earlier declaration is visible has the composite type; for a function type of which only one
+    declaration has a parameter type list, the composite type is the prototype.  chibicc represents `f()` by params == NULL with is_variadic set.  function() is evaluated
+    on a file-scope redeclaration for every combination (earlier type, later type) of {no prototype, prototype, variadic prototype} x {declaration, definition}; judged is
+    the type the function Obj carries afterwards (calls are converted according to it, C06/C07)."""
+    rep.rule('R15.11', 'composite type of a redeclared function (C11 6.2.7p3/p4): after function() the Obj of a function of which any declaration so far has a prototype '
+             'carries the parameter list (params, is_variadic) of a prototype; an unprototyped `f()` neither hides an earlier prototype nor stays the type when a prototype follows', floor=6)
+    _need(pe.u, PU, 'function', 'find_func')
+    u = pe.u
+    fline = u.fn('function').line
+    ag = Agg(rep, 'R15.11', PU, 'function')
+    KINDS = ('none', 'proto', 'variadic')
+
+    def mkty(label, kind):
+        ty = Obj('Type', lazy=True, label=label)
+        ty.fields['name'] = Obj('Token', lazy=True, label=label + '.name')
+        ty.fields['return_ty'] = _tyobj(pe.cg, label + '.return_ty', 'double')
+        ty.fields['params'] = 0 if kind == 'none' else Obj('Type', lazy=True, label=label + '.params')
+        ty.fields['is_variadic'] = 0 if kind == 'proto' else 1
+        if 'TY_FUNC' in pe.E:
+            ty.fields['kind'] = pe.E['TY_FUNC']
+        ty.meta['cat'] = 'func'
+        return ty
+    npaths = 0
+    for isdef in (0, 1):
+        def h_find(it, ctx, n, args):
+            return ctx.c15_old
+
+        def h_equal(it, ctx, n, args, isdef=isdef):
+            if args[0] is ctx.c15_tok and args[1] == '{':
+                return isdef
+            if args[0] is ctx.c15_tok and isinstance(args[1], str):
+                return 0
+            return _fresh_bool(ctx, 'equal')
+
+        def h_consume(it, ctx, n, args, isdef=isdef):
+            if args[2] == ';':
+                return 0 if isdef else 1
+            return _fresh_bool(ctx, 'consume')
+
+        def h_decl(it, ctx, n, args):
+            return ctx.c15_newty
+
+        def h_body(it, ctx, n, args):
+            return Obj('Node', lazy=True, label='body')
+        it = pe.interp(('function', 'new_gvar', 'new_var'), opaque=('create_param_lvars', 'resolve_goto_labels'),
+                       cut={'find_func': h_find, 'equal': h_equal, 'consume': h_consume, 'declarator': h_decl, 'compound_stmt': h_body},
+                       globals_={'current_fn': 0, 'scope': lambda ctx: ctx.c15_scope})
+        for ok_ in KINDS:
+            for nk in KINDS:
+                if (ok_ == 'variadic') != (nk == 'variadic'):
+                    continue          # `f()` / `f(double)` and `f(double, ...)` are not compatible types (C11 6.7.6.3p15): undefined, not judged
+                def mk(ctx, ok_=ok_, nk=nk):
+                    ctx.c15_tok = Obj('Token', lazy=True, label='tok')
+                    ctx.c15_scope = Obj('Scope', lazy=True, label='scope')
+                    ctx.c15_scope.fields['next'] = 0
+                    ctx.c15_oldty = mkty('earlier-type', ok_)
+                    ctx.c15_newty = mkty('ty', nk)
+                    o = Obj('Obj', lazy=True, label='earlier-declaration')
+                    o.fields.update(dict(is_function=1, is_definition=0, is_static=0, is_inline=0, is_root=1, is_live=0, is_local=0, is_inline_only=0, ty=ctx.c15_oldty))
+                    ctx.c15_old = o
+                    a = Obj('VarAttr', lazy=True, label='attr')
+                    a.fields.update(dict(is_static=0, is_inline=0, is_extern=0, is_typedef=0, is_tls=0, align=0))
+                    return [ctx.c15_tok, Obj('Type', lazy=True, label='basety'), a]
+                res = _explore(it, 'function', mk)
+                what = '%s-after-%s%s' % ({'none': 'unprototyped', 'proto': 'prototype', 'variadic': 'variadic-prototype'}[nk], {'none': 'unprototyped', 'proto': 'prototype', 'variadic': 'variadic-prototype'}[ok_],
+                                         '/definition' if isdef else '')
+                key = 'composite-type/' + what
+                for ctx, out in res:
+                    if out[0] != 'ret':
+                        continue
+                    npaths += 1
+                    T = _final(it, ctx.c15_old.fields.get('ty'))
+                    facts = {'earlier declaration': PROTO_DOC[ok_], 'this %s' % ('definition' if isdef else 'declaration'): PROTO_DOC[nk], 'path': ctx.trail[-5:]}
+                    if not isinstance(T, Obj):
+                        ag.note(key, False, 'after the redeclaration the function Obj has no type (%r)' % (T,), fline, facts)
+                        continue
+                    if T is not ctx.c15_oldty and T is not ctx.c15_newty:
+                        ag.undecided(key, 'after the redeclaration the function Obj carries a type that is neither the earlier nor the declared one (%r): its parameter list is not recognised' % (T.label,), fline)
+                        continue
+                    pa = _final(it, T.fields.get('params', 0)); va = _final(it, T.fields.get('is_variadic', 0))
+                    srcs = [t for t, k in ((ctx.c15_oldty, ok_), (ctx.c15_newty, nk)) if k != 'none']
+                    if not srcs:
+                        ag.note(key, isinstance(pa, int) and pa == 0 and va == 1, 'two declarations without a prototype leave a type with a parameter list (params=%r, is_variadic=%r)' % (pa, va), fline, facts)
+                        continue
+                    good = any(pa is _final(it, t.fields['params']) and va == t.fields['is_variadic'] for t in srcs)
+                    if ok_ == 'none':
+                        msg = ('a function declared %s and then %s %s keeps the type of the first declaration (params=%r, is_variadic=%r): the prototype never becomes the type of the function '
+                               '(C11 6.2.7p3/p4 composite type), so later calls do not convert their arguments to the parameter types (`double g(); double g(double x){..} .. g(3)` passes an int)'
+                               % (PROTO_DOC[ok_], 'defined' if isdef else 'declared again', PROTO_DOC[nk], pa, va))
+                    elif nk == 'none':
+                        msg = ('a function declared %s and then %s %s ends with params=%r, is_variadic=%r: the unprototyped redeclaration hides the prototype (C11 6.2.7p3: the composite type is the '
+                               'prototype), later calls do not convert their arguments' % (PROTO_DOC[ok_], 'defined' if isdef else 'declared again', PROTO_DOC[nk], pa, va))
+                    else:
+                        msg = 'after two prototyped declarations the function type has params=%r, is_variadic=%r, the parameter list of neither declaration' % (pa, va)
+                    ag.note(key, good, msg, fline, facts)
+    if npaths == 0:
+        raise AnalysisBroken('function(): no returning path explored for a redeclaration')
+    ag.flush(fline)
+
+
+# =============================================================================================
+# R15.12 address constants designate objects of static storage duration only
+# =============================================================================================
+class _LabelSlot:
+    """the caller's `char **label` variable"""
+    def __init__(self):
+        self.v = 0
+
+    def get(self, it):
+        return self.v
+
+    def set(self, it, v):
+        self.v = v
+
+
+def r1512(pe, rep):
+    """C11 6.6p9: an address constant is a pointer to an lvalue designating an object of STATIC storage duration (or to a function).  The address of a thread-local
+    object differs per thread and is not known at link time (a `.quad sym` against a TLS symbol yields the offset in the TLS segment, not an address); the address of
+    an automatic object does not exist before run time.  The constant evaluator hands out a relocation label through `*label`; every arm of eval2 / eval_rval is
+    explored per node kind (recursive calls cut) with the storage flags of node->var left open: on a path that returns with the label pointing into node->var, the
+    code must have established that the variable is neither thread-local nor local."""
+    from ..interp import _Ref, FieldPlace
+    rep.rule('R15.12', 'an address constant designates an object of static storage duration (C11 6.6p9): the constant evaluator (eval2 / eval_rval) hands out the name of an Obj as '
+             'relocation label only on paths on which the Obj is neither thread-local (is_tls) nor local (is_local)', floor=4)
+    u = pe.u
+    _need(u, PU, 'eval2', 'eval_rval')
+    kinds = u.enum_types.get('NodeKind')
+    if not kinds or 'ND_VAR' not in kinds:
+        raise AnalysisBroken('enum NodeKind / ND_VAR vanished')
+    nlabel = {}
+    for fn in ('eval2', 'eval_rval'):
+        fline = u.fn(fn).line
+        ag = Agg(rep, 'R15.12', PU, fn)
+
+        def h(name):
+            def f(it, ctx, n, args):
+                return Sym(ctx.fresh(name), 'long')
+            return f
+        it = pe.interp((fn,), cut={'eval2': h('eval2'), 'eval_rval': h('eval_rval'), 'eval': h('eval')}, opaque=('add_type', 'eval_double'))
+        for kind in kinds:
+            def mk(ctx, kind=kind):
+                node = Obj('Node', lazy=True, label='node')
+                node.fields['kind'] = pe.E[kind]
+                node.fields['ty'] = pe.cg.tcell('node.ty', only=('ptr', 'array', 'int', 'long'))
+                var = Obj('Obj', lazy=True, label='node.var')
+                var.fields['ty'] = pe.cg.tcell('node.var.ty', only=('array', 'func', 'int', 'ptr', 'struct'))
+                var.fields['is_local'] = _fresh_bool(ctx, 'node.var.is_local')
+                var.fields['is_tls'] = _fresh_bool(ctx, 'node.var.is_tls')
+                node.fields['var'] = var
+                ctx.c15_var = var
+                ctx.c15_slot = _LabelSlot()
+                return [node, _Ref(ctx.c15_slot)]
+            try:
+                res = _explore(it, fn, mk)
+            except AnalysisBroken:
+                raise
+            except Exception as e:
+                if kind == 'ND_VAR':
+                    raise AnalysisBroken('%s cannot be evaluated for ND_VAR: %r' % (fn, e))
+                continue          # an arm this engine cannot interpret and that is not the variable arm: not judged
+            for ctx, out in res:
+                if out[0] != 'ret':
+                    continue
+                L = ctx.c15_slot.v
+                if not (isinstance(L, _Ref) and isinstance(L.place, FieldPlace) and L.place.obj is ctx.c15_var):
+                    continue
+                nlabel[fn] = nlabel.get(fn, 0) + 1
+                var = ctx.c15_var
+                tls = _final(it, var.fields.get('is_tls')); loc = _final(it, var.fields.get('is_local'))
+                facts = {'node kind': kind, 'path': ctx.trail[-6:]}
+                ag.note('%s/thread-local-address-constant' % kind, isinstance(tls, int) and tls == 0,
+                        '%s returns the name of node->var as relocation label for %s without having excluded a thread-local variable (is_tls): `_Thread_local int t; int *p = &t;` is accepted and '
+                        'emitted as `.quad t` against a TLS symbol -- p does not point to any thread\'s t (C11 6.6p9: an address constant designates an object of static storage duration)' % (fn, kind),
+                        fline, facts)
+                ag.note('%s/automatic-object-address-constant' % kind, isinstance(loc, int) and loc == 0,
+                        '%s returns the name of node->var as relocation label for %s without having excluded a local variable (is_local): the address of an automatic object is accepted as a link-time '
+                        'constant (`int a[3]; static int *p = a;` is emitted as `.quad a`, an undefined or unrelated symbol)' % (fn, kind), fline, facts)
+        ag.flush(fline)
+    for fn in ('eval2', 'eval_rval'):
+        if not nlabel.get(fn):
+            rep.undecided('R15.12', '%s:%s:ND_VAR/label' % (PU, fn), 'no path of %s hands out the name of a variable as relocation label: the address-constant arm is not recognised' % fn)
+
+
 def _initial_global(it, P, name):
     """value of a global at program start: its initialiser, else zero (static storage duration)"""
     found = False
@@ -3061,6 +3350,9 @@ def run(P, rep, tier):
                        'scan_globals on all lists of up to three file-scope objects over two names; parse_args / run_linker on concrete option vectors; '
                        'main() + parse_args() + run_linker() on concrete link command lines (objects, archives, shared objects, C and assembler inputs, -l, -Wl, -Xlinker, interleaved options; default / -static / -shared), '
                        'observing only the argument vector of the ld process: every position-sensitive operand arrives once per mention, in command-line order, between start files and default libraries (R15.9). '
+                       'function() also on sequences in which a redeclaration stands inside a function body (only file-scope declarations decide whether a definition is an inline definition, R15.8 block-scope-redeclaration) '
+                       'and on redeclarations with / without a prototype (the Obj ends with the composite type, R15.11); eval2 / eval_rval per node kind with the storage flags of node->var open '
+                       '(a relocation label is handed out only for objects of static storage duration, R15.12). '
                        'Not decided: link results, run-time equivalence of the configurations, initialiser bytes (C05), prologue/epilogue (C06), the one redeclaration case the Obj flags '
                        'cannot tell apart (`inline f` vs `static inline f` followed by a plain / extern declaration: judged on declaration sequences instead, R15.8 declaration-sequence).')
     rep.assumptions += ['states never built by the parser are not judged (tentative with initialiser / thread-local / extern; local thread-local; non-static function that is not live)',
@@ -3082,7 +3374,7 @@ def run(P, rep, tier):
         return envs['pe']
     steps = [('R15.1', lambda: r151(cg, rep)), ('R15.2', lambda: r152(cg, rep)), ('R15.4', lambda: r154(cg, rep)),
              ('R15.3', lambda: r153(penv(), rep)), ('R15.5', lambda: r155(penv(), rep)), ('R15.6', lambda: r156(penv(), rep)),
-             ('R15.10', lambda: r1510(penv(), rep)),
+             ('R15.10', lambda: r1510(penv(), rep)), ('R15.11', lambda: r1511(penv(), rep)), ('R15.12', lambda: r1512(penv(), rep)),
              ('R15.7', lambda: r157(P, rep)), ('R15.9', lambda: r159(P, rep))]
     for rule, f in steps:
         try:
